@@ -1100,7 +1100,89 @@ def run(chk):
 
 
 def replay(chk, data):
+    """re-run the recorded input on the implementation and on the model, print both"""
     print(data.get("what"))
     r = data["replay"]
-    print("recorded:", json.dumps(r, default=str, ensure_ascii=False)[:2000])
+    kind = r.get("kind")
+    if "correspondence" in r:          # a model/implementation disagreement: the input is under "input"
+        print("mechanism:", r["correspondence"])
+        print("input:", json.dumps(r.get("input"), default=str, ensure_ascii=False)[:3000])
+        print("recorded model:", r.get("model"))
+        print("recorded impl: ", r.get("impl"))
+        inp = r.get("input")
+        if r["correspondence"] in ("tokenize", "parse") and isinstance(inp, str):
+            kind, r = r["correspondence"], {"e": inp}
+        elif r["correspondence"].endswith("resolve_pointer") and isinstance(inp, dict):
+            kind, r = "pointer", inp
+        elif r["correspondence"] == "evaluate" and isinstance(inp, dict):
+            kind, r = "eval", inp
+        elif r["correspondence"] == "status" and isinstance(inp, dict):
+            kind, r = "status", inp
+        else:
+            return 0
+    if "theorem" in r:
+        print("broken proof obligation:", r["theorem"])
+        print(r.get("build_log_tail", "")[-2000:])
+        return 0
+    drv = chk.driver()
+    idx = detect_index_variant()
+    stray, emb = detect_parser_variants()
+    cfg = {"idx": idx, "stray": stray, "embBody": emb}
+    print("variants in force:", cfg)
+    if kind == "tokenize":
+        e = r["e"]
+        print("impl now :", [[t.value, t.end, t.type_.name] for t in lexer.tokenize(e)])
+        print("model    :", drv.one("tokenize", {"e": e}))
+    elif kind == "parse":
+        e = r["e"]
+        print("impl now :", impl_parse(e))
+        print("model    :", drv.one("parse", {"e": e, "rx": rx_table(patterns_in(e))}))
+        print("malformed class:", conservative_malformed(e))
+    elif kind == "pointer":
+        doc, ptr = r["doc"], r["ptr"]
+        print("impl now :", canon_impl(lambda: resolve_pointer(doc, ptr)))
+        print("model/spec:", drv.one("pointer", {"doc": encJ(doc), "ptr": ptr}))
+        print("oracle   :", rfc6901(doc, ptr))
+    elif kind == "eval":
+        stub = Stub()
+        expr, nested, ctx = r["expr"], r["nested"], r["ctx"]
+        out = stub.output(ctx)
+        print("impl now :", canon_impl(lambda: expressions.evaluate(expr, out, evaluate_nested=nested)))
+        pats = set()
+        for x in strings_in(expr):
+            pats |= patterns_in(x)
+        try:
+            url = nodes.URL().evaluate(out)
+        except Exception:  # noqa: BLE001
+            url = ""
+        print("model    :", drv.one("eval", {"expr": encJ(expr), "nested": nested, "ctx": wire_ctx(ctx, url, out),
+                                            "rx": rx_table(pats), "ext": ext_table(pats, ctx_strings(ctx)), "cfg": cfg}))
+        print("recorded spec:", r.get("spec"))
+    elif kind == "status":
+        ks, ls, st = r["all"], r["links"], r["status"]
+        out = StepOutput(Response(status_code=st, headers={}, content=b"{}", request=_REQ, elapsed=0.1, verify=False), None)
+        res = []
+        for k in ls:
+            try:
+                res.append(bool(make_response_filter(k, tuple(ks))(out)))
+            except ValueError:
+                res.append("raises")
+        print("impl now :", res)
+        print("model/spec:", drv.one("status", {"all": ks, "links": ls, "status": st}))
+        print("oracle   :", [follows(k, ks, st) for k in ls])
+    elif kind == "link":
+        ctx, definition, generated = r["ctx"], r["definition"], r.get("generated")
+        sub = type(chk)(chk.prop, chk.tier, chk.seed)
+        corr_link(sub, [(ctx, (definition, {}, generated))], cfg, real_draws=1)
+        print("re-run on this link definition — disagreements:", {k: v for k, v in sub.mech.items() if v["disagreements"]},
+              "violations:", [(v["signature"], v["what"]) for v in sub.violations], "known:",
+              [k["signature"] for k in sub.known_hits])
+    elif kind == "state-machine":
+        sub = type(chk)(chk.prop, chk.tier, chk.seed)
+        corr_state_machine(sub, cfg, 12)
+        print("recorded:", json.dumps(r, ensure_ascii=False))
+        print("state machine re-run — violations:", [(v["signature"], v["what"]) for v in sub.violations], "known:",
+              [k["signature"] for k in sub.known_hits])
+    else:
+        print("recorded:", json.dumps(r, default=str, ensure_ascii=False)[:3000])
     return 0
